@@ -64,7 +64,24 @@ def gen_cases(tier, seed):
     return cases
 
 
-def compare_job(r, job, res, feature):
+K_SPANS = "include_source_drops_prefix_when_spans_coincide"
+K_LOCALS = "include_source_hides_captured_locals"
+
+
+def known_class(job, iv, pv):
+    """specific matchers of the two findings (anything else that goes wrong in these packagings stays a violation)"""
+    if job["kind"] == "inc_captured" and iv and "compile_error" in iv:
+        errs = [l for l in iv["compile_error"].splitlines() if "error" in l]
+        if errs and all("E0425" in l and "cannot find value `in_" in l for l in errs):
+            return K_LOCALS
+    if job["kind"] == "inc_uniform" and iv is not None and pv is not None:
+        # the faithful model (Pack/PackModel.v scan: before_tokens = []) predicts the program without the items before the include
+        if "snaps" in iv and "snaps" in pv and prog.canon_snap(iv["snaps"][-1]) == prog.canon_snap(pv["snaps"][-1]):
+            return K_SPANS
+    return None
+
+
+def compare_job(r, job, res, feature, pred=None):
     """mismatches of one packaging job against the specification answer of the logical program"""
     c = r["case"]
     rels = c["prog"]["rels"]
@@ -96,7 +113,8 @@ def compare_job(r, job, res, feature):
                         [t for t in sg[name][1] if t not in iset][:5], [t for t in iset if t not in sg[name][1]][:5])
                     break
         if what:
-            mism.append(dict(case=cs, impl=got if got else iv, model=None, spec={n: sg[n][1] for n, _, _ in rels}, kind="impl_violates_spec", known=None, what=what))
+            mism.append(dict(case=cs, impl=got if got else iv, model=None, spec={n: sg[n][1] for n, _, _ in rels}, kind="impl_violates_spec",
+                             known=known_class(job, iv, pred[s] if pred else None), what=what))
         else:
             ok += 1
     return mism, ok
@@ -135,12 +153,13 @@ def tie(tier, seed, replay):
     for r in results:
         mism += engine_tie.compare_case(r)
     rng = lib.rng_for(seed, PROP, "pack")
-    jobs, owner = [], {}
+    jobs, owner, nwit = [], {}, 0
     for r in results:
         if r["front_status"] != "ok" or r["spec"] is None:
             continue
         c = r["case"]
-        for j in c09_pack.packagings(rng, c["id"], c["prog"], c["inputs"], tier):
+        nwit += 1
+        for j in c09_pack.packagings(rng, c["id"], c["prog"], c["inputs"], tier, witness=(nwit <= (4 if tier == "quick" else 12))):
             jobs.append(j)
             owner[j["id"]] = r
     kinds, macros, okc = {}, {}, {}
@@ -151,8 +170,10 @@ def tie(tier, seed, replay):
         for i in range(0, len(jobs), 480):
             impl.update(c09_pack.build_and_run(tag, jobs[i:i + 480], features=feats))
         for j in jobs:
+            if j.get("aux"):
+                continue
             r = owner[j["id"]]
-            m, ok = compare_job(r, j, impl.get(j["id"]), feats)
+            m, ok = compare_job(r, j, impl.get(j["id"]), feats, impl.get(j["id"] + "_pred"))
             mism += m
             evals += j["nscripts"]
             key = j["kind"] + ("+segment-codegen" if feats else "")
